@@ -1,4 +1,5 @@
 # C10 — $merge and $replace behave as if the referenced subtree were written inline.
+import re
 from .. import filepass, core, evalgen, gen, hist, histprop
 from ..core import F, veq
 
@@ -57,6 +58,8 @@ def gen_case(rng):
     else:
         if can_dot and rng.chance(1, 2):
             ref = ".".join(tkeys)
+        elif all(re.fullmatch(r"[a-z]+", k) for k in tkeys) and rng.chance(1, 3):
+            ref = "[" + ", ".join(tkeys) + "]"          # a STRING whose YAML reading is a list: the list-path form written as text
         else:
             ref = pathl
         str_ok = can_dot
